@@ -15,6 +15,24 @@ pub const SOFTMAX_ALPHABET: [f64; 9] = [0.0, 1.0, -1.0, 400.0, -400.0, 745.0, -7
 pub fn softmax<T: W>(len: usize, orient: usize, seed: u64) {
     let (k, off) = seed_kf(seed);
     let x: Vec<f64> = (0..len).map(|_| rt::<T>(SOFTMAX_ALPHABET[mc::choose(9)] * k + off)).collect();
+    softmax_case::<T>(x, orient);
+}
+
+/// Long family: the value `a` everywhere except `b` at position `pos`, every (a, b) of the alphabet
+/// and every position of a vector of length `len` (1xN, Nx1 and 2x(N/2)).
+pub fn softmax_long<T: W>(len: usize, orient: usize, seed: u64) {
+    let (k, off) = seed_kf(seed);
+    let a = rt::<T>(SOFTMAX_ALPHABET[mc::choose(9)] * k + off);
+    let b = rt::<T>(SOFTMAX_ALPHABET[mc::choose(9)] * k + off);
+    let pos = mc::choose(len);
+    let mut x = vec![a; len];
+    x[pos] = b;
+    mc::count("long_softmax");
+    softmax_case::<T>(x, orient);
+}
+
+fn softmax_case<T: W>(x: Vec<f64>, orient: usize) {
+    let len = x.len();
     let (r, c) = match orient {
         0 => (1, len),
         1 => (len, 1),
@@ -63,6 +81,41 @@ pub fn variance<T: W>(kind: &str, n: usize) {
     let mu = mus[mc::choose(mus.len())];
     let sigma = SIGMAS[mc::choose(SIGMAS.len())];
     let s: Vec<i64> = (0..n).map(|_| [0i64, 1, -1][mc::choose(3)]).collect();
+    variance_case::<T>(kind, mu, sigma, s);
+}
+
+/// Number of structured {0,1,-1} patterns of length n of the long family.
+pub fn n_long_patterns(n: usize) -> usize {
+    6 + 2 * n
+}
+
+/// Structured patterns over {0,1,-1}^n: the three phases of the period-3 pattern (0,1,-1), the two
+/// phases of the alternating pattern (1,-1), first half +1 / second half -1, and a single +1 or a
+/// single -1 at every position of an otherwise constant (0) vector.
+pub fn long_pattern(k: usize, n: usize) -> Vec<i64> {
+    match k {
+        0..=2 => (0..n).map(|i| [0i64, 1, -1][(i + k) % 3]).collect(),
+        3 | 4 => (0..n).map(|i| if (i + k) % 2 == 0 { -1 } else { 1 }).collect(),
+        5 => (0..n).map(|i| if i < n / 2 { 1 } else { -1 }).collect(),
+        _ => {
+            let (pos, sign) = ((k - 6) / 2, if (k - 6) % 2 == 0 { 1 } else { -1 });
+            (0..n).map(|i| if i == pos { sign } else { 0 }).collect()
+        }
+    }
+}
+
+/// Long family: x = mu + sigma * s for every structured pattern s of length n (`long_pattern`).
+pub fn variance_long<T: W>(kind: &str, n: usize) {
+    let mus = offsets::<T>();
+    let mu = mus[mc::choose(mus.len())];
+    let sigma = SIGMAS[mc::choose(SIGMAS.len())];
+    let s = long_pattern(mc::choose(n_long_patterns(n)), n);
+    mc::count("long_variance");
+    variance_case::<T>(kind, mu, sigma, s);
+}
+
+fn variance_case<T: W>(kind: &str, mu: f64, sigma: f64, s: Vec<i64>) {
+    let n = s.len();
     let x: Vec<f64> = s.iter().map(|k| mu + sigma * *k as f64).collect();
     debug_assert!(x.iter().all(|v| rt::<T>(*v) == *v));
     let (s1, s2): (i64, i64) = (s.iter().sum(), s.iter().map(|k| k * k).sum());
